@@ -401,3 +401,11 @@ class RefController:
             snap = observed.get("snapshot")
             if snap is not None:
                 self.nodes = copy.deepcopy(snap)
+                sender = pred.fields[0] if pred.fields else None
+                if pred.note == "gateway-presentation-with-odd-version" and sender in self.outstanding and self.is2x:
+                    if str(sender) in snap:
+                        # the refused presentation did register the node: it has presented itself, its next rejected message is asked about again
+                        self.outstanding.discard(sender)
+                        self.marker_unknown.discard(sender)
+                    else:
+                        self.marker_unknown.add(sender)  # not registered: whether the refused presentation ends the episode is unspecified
